@@ -2,7 +2,7 @@
    Statements only; proofs are in CS/SolverProofs.v.  The model (CS/Solver.v) is the function
    evaluated by the correspondence check on systems compiled by the real builders. *)
 From Coq Require Import Field List.
-From GnarkV Require Import Base.Res CS.Solver CS.SolverProofs CS.SolverFindings.
+From GnarkV Require Import Base.Res Base.F47 CS.Solver CS.SolverProofs CS.SolverFindings.
 Import ListNotations.
 
 Section C06.
@@ -51,6 +51,15 @@ Theorem C06_lro_public : forall v nb_pub size instrs i, i < nb_pub ->
 Proof. exact (lro_public F zero). Qed.
 End C06.
 
+(* The same statement at the instance evaluated by the correspondence check for the 47-element
+   field: no hypothesis is left (F_47 is a proved field, Base/F47.v). *)
+Theorem C06_solve_ok_sat_F47 : forall orc is_r1cs nbw instrs order w v,
+  solve F47 zero47 one47 add47 mul47 sub47 opp47 div47 inv47 eq_dec47 orc is_r1cs nbw instrs order w = Ok v ->
+  extends F47 (init_vals F47 one47 is_r1cs w) v /\
+  (forall x, x < nbw -> v x <> None) /\
+  (forall i ins, In i order -> nth_error instrs i = Some ins -> holds F47 zero47 one47 add47 mul47 opp47 v ins).
+Proof. exact (C06_solve_ok_sat F47 zero47 one47 add47 mul47 sub47 opp47 div47 inv47 F47_field eq_dec47). Qed.
+
 (* Known finding F5: for the "division by 0" error class of the sparse solver the failure clause
    is false of the faithful model (and of the code): a satisfiable gate is reported as failing. *)
 Theorem C06_divzero_failure_clause_refuted :
@@ -64,3 +73,4 @@ Print Assumptions C06_run_err_violated.
 Print Assumptions C06_lro_copy.
 Print Assumptions C06_lro_public.
 Print Assumptions C06_divzero_failure_clause_refuted.
+Print Assumptions C06_solve_ok_sat_F47.
